@@ -1,4 +1,2 @@
 import IsalVerif.Impl.GcmStream
-import IsalVerif.Spec.Xts
-import IsalVerif.Spec.Cbc
-/-! C07 — property theorems (being filled in; see DESIGN.md status) -/
+/-! C07 — GCM streaming equals one-shot (refinement proof in progress; see DESIGN.md status) -/
